@@ -1,5 +1,6 @@
 import PgBifrost.Driver.Ledger
 import PgBifrost.Driver.Batcher
+import PgBifrost.Driver.Filter
 /-! `bfmodel`: line-protocol driver for the executable models (core Lean only, so it links).
 One request line in, one answer line out. First word selects the model. -/
 open PgBifrost
@@ -9,6 +10,7 @@ structure DriverState where
   ledgermon : Driver.Ledger.MonState := {}
   batcher : Driver.Batcher.DState := {}
   batch : Driver.Batcher.BState := {}
+  filter : Driver.Filter.DState := ⟨false, false, []⟩
 
 def dispatch (st : DriverState) (line : String) : DriverState × String :=
   match Util.words line with
@@ -16,6 +18,8 @@ def dispatch (st : DriverState) (line : String) : DriverState × String :=
   | "ledgermon" :: args => let (s, out) := Driver.Ledger.monHandle st.ledgermon args; ({ st with ledgermon := s }, out)
   | "batcher" :: args => let (s, out) := Driver.Batcher.handle st.batcher args; ({ st with batcher := s }, out)
   | "batch" :: args => let (s, out) := Driver.Batcher.batchHandle st.batch args; ({ st with batch := s }, out)
+  | "filter" :: args => let (s, out) := Driver.Filter.handle st.filter args; ({ st with filter := s }, out)
+  | "cli" :: args => (st, Driver.Filter.cliHandle args)
   | "crc" :: args => (st, Driver.Batcher.crcHandle args)
   | ["ping"] => (st, "pong")
   | _ => (st, "bad-op")
